@@ -135,29 +135,11 @@ end Utf8P
 namespace Utf16P
 open Utf8P (enc enc16 scalar)
 
-/-- the inverse converter accepts the BOM followed by the UTF-16 of any scalar values, and returns their UTF-8 -/
+/-- the inverse converter accepts the BOM followed by the UTF-16 of any scalar values, and returns the UTF-8 of the mark and
+    of the values (the `encode` hook of the output format then drops the mark) -/
 theorem fromUtf16_wf (cs : List Nat) (hs : ∀ c ∈ cs, scalar c) :
-    fromUtf16 false [bytesLE (0xfeff :: cs.flatMap enc16)] = .ok (cs.flatMap enc) 0 0 := by
-  have hlen := bytesLE_length (0xfeff :: cs.flatMap enc16)
-  have hall : ∀ u ∈ (0xfeff :: cs.flatMap enc16), u < 65536 := by
-    intro u hu
-    simp only [List.mem_cons, List.mem_flatMap] at hu
-    rcases hu with hu | ⟨c, hc, hu⟩
-    · omega
-    · exact enc16_lt c (hs c hc) u hu
-  have hrd := rd16_bytes (0xfeff :: cs.flatMap enc16) 0 hall (by simp)
-  simp only [List.getElem_cons_zero] at hrd
-  have hmax : 2 * (0xfeff :: cs.flatMap enc16).length / 2 + 2 * (0xfeff :: cs.flatMap enc16).length % 2
-      = (0xfeff :: cs.flatMap enc16).length := by omega
-  simp only [fromUtf16, regions, region, List.flatten_cons, List.flatten_nil, List.append_nil,
-    Nat.sub_zero, List.drop_zero, hlen, hmax]
-  rw [inner_step_bom _ _ _ _ _ _ _ _ (by simp) (by omega) hrd]
-  have := inner16_wf (bytesLE (0xfeff :: cs.flatMap enc16)) cs [0xfeff]
-    (0xfeff :: cs.flatMap enc16).length [] 0 0 (0xfeff :: cs.flatMap enc16) (by simp)
-    (by intro u hu; simp at hu; omega) hs (by simp) (by simp)
-  simp only [List.length_singleton, List.nil_append] at this
-  rw [this]
-  simp
+    fromUtf16 false [bytesLE (0xfeff :: cs.flatMap enc16)] = .ok (enc 0xfeff ++ cs.flatMap enc) 0 0 :=
+  fromUtf16_bom_wf cs hs
 
 /-- **UTF-8 → UTF-16 returns NULL or data the inverse transform accepts**, for arbitrary input bytes and any fragmentation -/
 theorem utf8_to_utf16_output_accepted (flat : List Nat) (lens : List Nat) (hne : lens ≠ []) {us : List Nat} {s : Nat}
